@@ -19,7 +19,8 @@ RULE = ("Hypothesis draws an environment with declared bounds/domains (ordering-
         "symmetric matrices.  P.variables names, n_variables, get_bounds(), element domains and (for LPs) the "
         "keys of Solution.values must equal the syntactic variable set of the recipes in independent natural "
         "order with the declared bounds, also when the constraints are added in a different order.  "
-        "Non-trivial = >= 3 variables from >= 2 declarations, or one vector through a non-identity view.")
+        "Non-trivial = >= 3 variables from >= 2 declarations, or one vector through a non-identity view."
+        '  Also: vector base names with digits (x2, x10), different views with equal derived names in objective vs constraint, and a bound edited after get_bounds() was read (the next read must show it).')
 BUDGET = {"quick": {"workers": 16, "examples": 300}, "thorough": {"workers": 16, "examples": 8000}}
 ASSUMPTIONS = ["variable names are unique per problem and have no leading zeros (documented preconditions)"]
 MANIFEST = {
